@@ -287,6 +287,9 @@ func runC20(c *Check, a *Analysis) {
 	ruleNoCloseUnderLock(c, a, "R-NO-CLOSE-UNDER-LOCK")
 	c.Rule("R-LOCK", "Server.codecs under Server.mutex; Server.listeners under Server.mut; Conn.closing under Conn.mutex", 5)
 	ruleLock(c, a, "R-LOCK", "Server", "codecs", "listeners")
+	ruleSharedLocalMap(c, a, "R-LOCK")
+	ruleSchedNil(c, a, "R-SCHED-NIL")
+	rulePollEOF(c, a, "R-POLL-EOF")
 	ruleLock(c, a, "R-LOCK", "Conn", "closing")
 	ls := a.Locks()
 	sc := siteCounter{}
